@@ -122,6 +122,36 @@ fn main() {
             let ctx = Ctx { tier, seed, verbose: false, lane };
             println!("{}", check.describe(&ctx, idx));
         }
+        "sim" => {
+            // kvmon sim <cfg-file> "<history>" : run and print the trace (debugging aid)
+            let cfg = std::fs::read_to_string(args.get(2).expect("cfg file")).expect("read cfg");
+            let h = checks::c01::parse_hist(args.get(3).map(|s| s.as_str()).unwrap_or(""));
+            let mut sim = crate::core::sim::Sim::new(&cfg).unwrap_or_else(|e| {
+                eprintln!("rejected: {e}");
+                std::process::exit(2)
+            });
+            let extra: u64 = arg_val(&args, "--drain").and_then(|s| s.parse().ok()).unwrap_or(300);
+            for e in &h {
+                sim.apply(e);
+                if !matches!(e, crate::core::sim::Ev::T(_)) {
+                    println!("{:>6} in  {}", sim.now, crate::core::sim::render_hist(std::slice::from_ref(e)));
+                }
+            }
+            for _ in 0..extra {
+                let _ = sim.k.can_block_update_idle_waiting(1);
+                sim.tick();
+            }
+            for o in &sim.trace {
+                println!("{:>6} out {}", o.at, o.short());
+            }
+            let l = sim.k.layout.b();
+            println!("end: now={} idle={} os={} queue={} action_queue={} waiting={} states={:?}", sim.now, sim.is_idle(), sim.os.describe(), l.queue.len(), l.action_queue.len(), l.waiting.is_some(), l.states);
+        }
+        "triage" => {
+            let path = args.get(2).cloned().unwrap_or_else(|| usage());
+            let doc: serde_json::Value = serde_json::from_str(&std::fs::read_to_string(&path).expect("read")).expect("json");
+            checks::c01::triage(&doc);
+        }
         "replay" => {
             let path = args.get(2).cloned().unwrap_or_else(|| usage());
             let text = std::fs::read_to_string(&path).unwrap_or_else(|e| {
